@@ -582,6 +582,16 @@ func (t *tokenizer) readOperator() (string, error) {
 	}
 
 	for isOperatorChar(c) {
+		if c == '/' && ret.Len() > 0 {
+			// "//" and "/*" begin a comment, also right behind operator characters.
+			cs, err := t.peekN(2)
+			if err != nil && err != io.EOF {
+				return "", err
+			}
+			if len(cs) == 2 && (cs[1] == '/' || cs[1] == '*') {
+				break
+			}
+		}
 		ret.WriteByte(byte(c))
 		_, err = t.read()
 		if err != nil {
